@@ -283,7 +283,8 @@ Qed.
 
 Lemma step_wsigset cfg own s tr t f n :
   GInv cfg own s tr -> (t < nthreads s)%nat -> pc_of s t = WSigSet f n ->
-  GInv cfg own (goto (put_fut s f (fut_phase (fut_sig (get_fut s f) true) PhSignalled)) t WIncProc)
+  GInv cfg own (goto (put_fut s f (fut_phase (fut_sig (get_fut s f) true) PhSignalled)) t
+                     (if c_sigfix cfg then WIncProc else WBcast f n))
        ([EvSigSet f n] ++ tr).
 Proof.
   intros G Hlt Epc. pose proof (g_thr _ _ _ _ G t) as Hme. rewrite Epc in Hme. cbn [thread_ok] in Hme.
@@ -291,8 +292,8 @@ Proof.
   pose proof (g_fut _ _ _ _ G f Hf) as (F1 & F2 & F3 & F4 & F5 & F6).
   apply (ginv_fut cfg own s tr s t f _ _ _ G (same_but_refl s t) Hlt); auto.
   - rewrite Epc; exact Logic.I.
-  - exact Logic.I.
-  - cbn. discriminate.
+  - destruct (c_sigfix cfg); exact Logic.I.
+  - destruct (c_sigfix cfg); cbn; discriminate.
   - intros x Hx. rewrite Hph. reflexivity.
   - intros tk. rewrite Hph. discriminate.
   - unfold fut_ok. cbn [fut_phase fut_sig f_joinable f_sig f_phase f_serial f_state f_result f_aborting app].
@@ -310,7 +311,7 @@ Proof.
     split.
     { intro Ha. destruct (F5 Ha) as [c Hc]. exists c. right. exact Hc. }
     intros c m a0 wk0 [H|H]; [discriminate|eauto].
-  - exact Logic.I.
+  - destruct (c_sigfix cfg) eqn:Esf; cbn [thread_ok]; [exact Logic.I|exact Esf].
   - cbn [app trace_ok ev_ok]. split; [exact Logic.I|apply (g_trace _ _ _ _ G)].
   - apply starts_fun_cons; [discriminate|apply (g_starts _ _ _ _ G)].
 Qed.
@@ -371,7 +372,8 @@ Proof.
 Qed.
 
 Definition join_obs (t f n : nat) (res : option Z) (e : event) : Prop :=
-  exists i, e = EvObs t i (OJoin f (Some n)) \/ e = EvObs t i (OGet f (Some n) res).
+  exists i, e = EvObs t i (OJoin f (Some n)) \/ e = EvObs t i (OGet f (Some n) res) \/
+            e = EvObs t i (ODestroy f (Some n)) \/ exists b, e = EvDestroy t f b.
 
 Lemma step_cjoinreset cfg own s tr t f a p' evs2 :
   GInv cfg own s tr -> (t < nthreads s)%nat -> pc_of s t = CJoinReset f a ->
@@ -396,7 +398,7 @@ Proof.
                            (forall w m a, e <> EvRun w f m a) /\ (forall c g m a wk, e <> EvStart c g m a wk) /\
                            (forall w g m a, e <> EvRun w g m a)).
   { intros e He. apply in_app_or in He as [He|[<-|[]]].
-    - destruct (Hev e He) as [i [->| ->]]; repeat split; discriminate.
+    - destruct (Hev e He) as [i [->|[->|[->|[b ->]]]]]; repeat split; discriminate.
     - repeat split; discriminate. }
   assert (Hruns : forall g m, runs ((evs2 ++ [EvJoinRet t f (f_serial x)]) ++ tr) g m = runs tr g m).
   { intros g m. induction (evs2 ++ [EvJoinRet t f (f_serial x)]) as [|e l IH]; [reflexivity|].
@@ -438,7 +440,7 @@ Proof.
     { cbn [app trace_ok ev_ok]. split; [exact J|apply (g_trace _ _ _ _ G)]. }
     rewrite <- app_assoc. revert Hev. clear - T0 D4 D5. induction evs2 as [|e l IH]; intro Hev; [exact T0|].
     cbn [app trace_ok]. split; [|apply IH; intros; apply Hev; now right].
-    destruct (Hev e (or_introl eq_refl)) as [i [->| ->]]; cbn [ev_ok]; [exact Logic.I|].
+    destruct (Hev e (or_introl eq_refl)) as [i [->|[->|[->|[b ->]]]]]; cbn [ev_ok]; try exact Logic.I.
     exists a0, wk. split; [|exact D5].
     eapply started_mono; [|exact D4]. intros y Hy. apply in_or_app. right. right. exact Hy.
   - intros c c' g m a1 a1' wk1 wk1' H1 H2. eapply (g_starts _ _ _ _ G); eauto.
@@ -870,6 +872,7 @@ Proof.
       intros f0 E. inversion E; subst. exact Hf.
     + apply (ginv_goto cfg own s tr s1 [_] t _ G SB Hlt Hnr); cbn; auto. discriminate.
     + apply (ginv_goto cfg own s tr s1 [_] t _ G SB Hlt Hnr); cbn; auto. discriminate.
+    + apply (ginv_goto cfg own s tr s1 [_; _] t _ G SB Hlt Hnr); cbn; auto. discriminate.
 Qed.
 
 Ltac cfut Epc := cbn; first [ discriminate | intros ? E; inversion E; subst; rewrite Epc; left; reflexivity ].
@@ -914,6 +917,14 @@ Proof.
       * intros g [H|H]; [rewrite Epc1 in H; discriminate|right; auto].
       * rewrite Epc1. exact Logic.I.
     + (* CPause *)
+      inv_step Hs. destruct SB as (B1 & B2 & B3 & B4 & B5).
+      apply (ginv_nonring cfg own s tr s1 [_] t G); auto.
+      * rewrite Epc1. exact Logic.I.
+      * intros g [H|H]; [rewrite Epc1 in H; discriminate|right; auto].
+      * rewrite Epc1. exact Logic.I.
+    + (* CDestroy *) exact (join_or_inv cfg own s tr s1 t f _ _ _ G SB Elt Hnr (or_intror (Hmen f eq_refl)) Hs).
+    + (* CResume: c_nested = false, a pause *)
+      destruct W as (_ & _ & Wn). rewrite Wn in Hs.
       inv_step Hs. destruct SB as (B1 & B2 & B3 & B4 & B5).
       apply (ginv_nonring cfg own s tr s1 [_] t G); auto.
       * rewrite Epc1. exact Logic.I.
@@ -1021,7 +1032,9 @@ Proof.
     + refine (step_cjoinreset cfg own s tr t f _ _ [_] G Elt Epc (or_introl eq_refl) _).
       intros e [<-|[]]. eexists. left. reflexivity.
     + refine (step_cjoinreset cfg own s tr t f _ _ [_] G Elt Epc (or_introl eq_refl) _).
-      intros e [<-|[]]. eexists. right. rewrite get_fut_put by exact Hf. rewrite Nat.eqb_refl. reflexivity.
+      intros e [<-|[]]. eexists. right. left. rewrite get_fut_put by exact Hf. rewrite Nat.eqb_refl. reflexivity.
+    + refine (step_cjoinreset cfg own s tr t f _ _ [_; _] G Elt Epc (or_introl eq_refl) _).
+      intros e [<-|[<-|[]]]; [exists 0%nat; right; right; right; eexists; reflexivity|eexists; right; right; left; reflexivity].
   - (* CStartSet *)
     inv_step Hs. exact (step_cstartset cfg own s tr t f arg work G Elt Epc).
   - (* CInc *) inv_step Hs; simple_goto G Elt Epc.
@@ -1043,6 +1056,7 @@ Proof.
   - (* CShrinkDec *) inv_step Hs. destruct (c_fixed cfg); simple_goto G Elt Epc.
   - (* CShrinkUnlock *) inv_step Hs; simple_goto G Elt Epc.
   - (* WCall *)
+    destruct W as (_ & _ & Wn). rewrite Wn in Hs. cbn [andb] in Hs.
     destruct ((work =? 3)%nat && negb (f_aborting (get_fut s f))); inv_step Hs; [exact G|].
     exact (step_wcall cfg own s tr t f n arg work G Elt Epc).
   - (* WStore *) inv_step Hs. exact (step_wstore cfg own s tr t f n v G Elt Epc).
@@ -1057,4 +1071,5 @@ Proof.
   - (* WSwap *) inv_step Hs. exact (step_wswap cfg own s tr t f n ab G Elt Epc).
   - (* WSigSet *) inv_step Hs. exact (step_wsigset cfg own s tr t f n G Elt Epc).
   - (* WIncProc *) inv_step Hs; simple_goto G Elt Epc.
+  - (* WBcast *) inv_step Hs; simple_goto G Elt Epc.
 Qed.
